@@ -8,14 +8,14 @@ import (
 	"github.com/dadrus/heimdall/verif/engine"
 )
 
-// RunAll executes every scenario (on the first worker only: the scenarios use real goroutines and a real watcher and are
-// few) and reports violations under the given signature prefix.
+// RunAll executes every scenario.
 func RunAll(c *engine.Ctx) {
-	if c.Shard != 0 {
-		return
-	}
+	// the scenarios are independent (a directory, a provider and a repository of their own): dealt over the workers
+	for i, cs := range Cases() {
+		if !c.Mine(i) {
+			continue
+		}
 
-	for _, cs := range Cases() {
 		cs := cs
 		judge(c, &cs)
 	}
